@@ -285,7 +285,11 @@ type caseB struct {
 	// intent: keys the tool assigned through Result.SetConfig since they were last made file
 	// configuration — internal by the API contract, whatever the File flag of the object says;
 	// consumed by the next write
-	intent  []string
+	intent []string
+	// a second, independent Writer fed with a subset of the same (live) records
+	w2      *benchfmt.Writer
+	buf2    bytes.Buffer
+	want2   []string
 	binDiff bool // stdout of the built benchfilter binary differs from the in-process replay
 }
 
@@ -346,6 +350,63 @@ func (c *caseB) write(rec benchfmt.Record) {
 	if serialise(rec) != ser {
 		c.mutated = true
 	}
+}
+
+// write2 hands rec to the second writer as well (its own stream, its own running model).
+func (c *caseB) write2(rec benchfmt.Record) {
+	if c.w2 == nil {
+		c.w2 = benchfmt.NewWriter(&c.buf2)
+		c.tag("twowriters")
+	}
+	ser := serialise(rec)
+	if _, isErr := rec.(*benchfmt.SyntaxError); !isErr {
+		c.want2 = append(c.want2, observe(rec))
+	}
+	if err := c.w2.Write(rec); err != nil {
+		panic("Writer.Write: " + err.Error())
+	}
+	if serialise(rec) != ser {
+		c.mutated = true
+	}
+}
+
+// scribble overwrites every buffer of a record the caller owns (after Write returned the writer
+// must not depend on them): configuration values, name, measurements.
+func scribble(res *benchfmt.Result) {
+	for i := range res.Config {
+		for j := range res.Config[i].Value {
+			res.Config[i].Value[j] = 'Z'
+		}
+		res.Config[i].File = !res.Config[i].File
+	}
+	for j := range res.Name {
+		res.Name[j] = 'Q'
+	}
+	for i := range res.Values {
+		res.Values[i] = benchfmt.Value{Value: -1, Unit: "scribbled"}
+	}
+	res.Iters = -77
+}
+
+// reusedReader is ONE Reader for the whole process, Reset onto every case's output: whatever an
+// earlier input left behind (configuration, queue, Result buffers) must not show.
+var reusedReader = new(benchfmt.Reader)
+
+func rereadReused(data []byte) []string {
+	reusedReader.Reset(bytes.NewReader(data), "rt")
+	var stream []string
+	for reusedReader.Scan() {
+		o := observe(reusedReader.Result())
+		// unit metadata deliberately survives Reset (C02 units_carry): a setting made by an earlier
+		// case is silent or a conflict error here — only results are compared
+		if strings.HasPrefix(o, "R/") {
+			stream = append(stream, o)
+		}
+	}
+	if reusedReader.Err() != nil {
+		stream = append(stream, "IOERR")
+	}
+	return stream
 }
 
 // implRead parses data with the real reader: the observation stream and, per record, the keys
@@ -455,6 +516,23 @@ func (c *caseB) finish(id int, out *strings.Builder) {
 		}
 		if c.binDiff {
 			extra += " benchfilter-binary-differs"
+		}
+		// the same bytes through a Reader that has read all earlier cases and was Reset
+		var noU []string
+		for _, o := range st {
+			if strings.HasPrefix(o, "R/") || o == "IOERR" {
+				noU = append(noU, o)
+			}
+		}
+		if strings.Join(rereadReused(impl), ",") != strings.Join(noU, ",") {
+			extra += " reused-reader-differs"
+		}
+		// the second writer's stream must read back as what IT was given
+		if c.w2 != nil && !c.cr && !long {
+			st2, _ := implRead(c.buf2.Bytes())
+			if strings.Join(st2, ",") != strings.Join(c.want2, ",") {
+				extra += " second-writer-differs"
+			}
 		}
 		fmt.Fprintf(out, "sobs %d rt=%s leak=%s%s\n", id, joinOr(",", st), joinOr(",", leak), extra)
 	}
